@@ -356,8 +356,21 @@ def run(ctx: common.Ctx):
     # tableau lengths
     base = int(rng.integers(1, 5))
     ls4 = [base - 1, base - 1, base, base]
-    if vi % 3:
+    # one list wrong, or JOINT mismatches in which the two halves still agree with each other (both b's longer than
+    # len(a) + 1, both a's changed, explicit against implicit half), or all four at random
+    tmode = ['consistent', 'single', 'single', 'joint-b', 'joint-a', 'halves', 'random'][vi % 7]
+    if tmode == 'single':
       ls4[int(rng.integers(0, 4))] = int(rng.integers(0, 5))
+    elif tmode == 'joint-b':
+      ls4[2] = ls4[3] = int(rng.integers(0, 6))
+    elif tmode == 'joint-a':
+      ls4[0] = ls4[1] = int(rng.integers(0, 5))
+    elif tmode == 'halves':
+      other = int(rng.integers(1, 5))
+      ls4[1], ls4[3] = other - 1, other
+    elif tmode == 'random':
+      ls4 = [int(v) for v in rng.integers(0, 5, 4)]
+    ctx.dist[f'tableau-mode:{tmode}'] += 1
     try:
       ti.ImExButcherTableau([[0.0]] * ls4[0], [[0.0, 0.0]] * ls4[1], [0.0] * ls4[2], [0.0] * ls4[3])
       acc = True
